@@ -11,6 +11,8 @@ use core::cmp::Ordering;
 use core::hash::{Hash, Hasher};
 pub fn eq_a(a: &u8, b: &u8) -> bool { (a & 3) <= (b & 3) }
 pub fn eq_b(a: &u8, b: &u8) -> bool { a >> 1 == b >> 1 }
+/// address-sensitive comparison: true only for the very same storage
+pub fn eq_addr(a: &u8, b: &u8) -> bool { core::ptr::eq(a, b) }
 pub fn cmp_a(a: &u8, b: &u8) -> Ordering { (a & 3).cmp(&(b >> 6)) }
 pub fn cmp_b(a: &u8, b: &u8) -> Ordering { (b >> 1).cmp(&(a >> 1)) }
 pub fn pcmp_a(a: &u8, b: &u8) -> Option<Ordering> { if *a == 255 || *b == 254 { None } else { Some((a & 3).cmp(&(b >> 6))) } }
@@ -44,6 +46,33 @@ pub fn ctr_counts() -> [u8; 6] { unsafe { CTR } }
 
 pub type Off = i64;
 pub type Flt = f64;
+
+/// adversarial field type: it has INHERENT methods with the names of the trait methods the generated code
+/// calls (clone, eq, cmp, hash, default, into, fmt, ...), each doing the wrong thing, next to correct trait
+/// impls.  Generated code must reach the trait items (fully qualified paths), never these.
+#[derive(Debug)]
+pub struct Adv(pub u8);
+impl Adv {
+    pub fn clone(&self) -> Adv { Adv(self.0 ^ 0xff) }
+    pub fn clone_from(&mut self, _s: &Adv) { self.0 = 0xEE; }
+    pub fn eq(&self, _o: &Adv) -> bool { false }
+    pub fn ne(&self, _o: &Adv) -> bool { false }
+    pub fn cmp(&self, _o: &Adv) -> Ordering { Ordering::Less }
+    pub fn partial_cmp(&self, _o: &Adv) -> Option<Ordering> { None }
+    pub fn hash<H: Hasher>(&self, h: &mut H) { h.write_u8(0xEE) }
+    pub const fn default() -> Adv { Adv(7) }
+    pub fn into(self) -> u32 { 700 }
+    pub fn fmt(&self, f: &mut core::fmt::Formatter<'_>) -> core::fmt::Result { f.write_str("WRONG") }
+}
+impl Clone for Adv { fn clone(&self) -> Self { Adv(self.0) } }
+impl Copy for Adv {}
+impl PartialEq for Adv { fn eq(&self, o: &Self) -> bool { self.0 == o.0 } }
+impl Eq for Adv {}
+impl PartialOrd for Adv { fn partial_cmp(&self, o: &Self) -> Option<Ordering> { Some(self.0.cmp(&o.0)) } }
+impl Ord for Adv { fn cmp(&self, o: &Self) -> Ordering { self.0.cmp(&o.0) } }
+impl Hash for Adv { fn hash<H: Hasher>(&self, h: &mut H) { h.write_u8(self.0) } }
+impl Default for Adv { fn default() -> Self { Adv(1) } }
+impl From<Adv> for u32 { fn from(a: Adv) -> u32 { a.0 as u32 } }
 /// newtype reachable from an integer literal only through Into
 #[derive(Clone, Copy, PartialEq, Eq, Debug, Default)]
 pub struct W(pub i32);
@@ -115,6 +144,13 @@ pub mod m {
     pub open spec fn mid_fmt_b() -> int { 2 }
     #[verifier::external_body]
     pub fn fmt_b(a: &u8, f: &mut core::fmt::Formatter<'_>) -> (r: core::fmt::Result) ensures r == fmt_b_spec(*a, f_state(old(f))) { unimplemented!() }
+    pub struct Adv(pub u8);
+    impl core::hash::Hash for Adv {
+        #[verifier::external_body]
+        fn hash<H: core::hash::Hasher>(&self, state: &mut H)
+            ensures h_tr(final(state)) == h_push(h_tr(old(state)), hv_adv(*self))
+        { unimplemented!() }
+    }
     pub struct K(pub u64);
     impl core::hash::Hash for K {
         #[verifier::external_body]
@@ -158,6 +194,8 @@ impl Val for [u8; 0] { fn draw<S: Src>(_s: &mut S) -> Self { [] } }
 impl Val for () { fn draw<S: Src>(_s: &mut S) -> Self { } }
 impl Val for crate::m::K { fn draw<S: Src>(s: &mut S) -> Self { crate::m::K(s.u64()) } }
 impl<const ID: usize> Val for crate::m::Ctr<ID> { fn draw<S: Src>(s: &mut S) -> Self { crate::m::Ctr(s.u8()) } }
+impl Val for crate::m::Adv { fn draw<S: Src>(s: &mut S) -> Self { crate::m::Adv(s.u8()) } }
+impl Val for &'static mut u8 { fn draw<S: Src>(s: &mut S) -> Self { Box::leak(Box::new(s.u8())) } }
 impl Val for crate::m::Inc { fn draw<S: Src>(s: &mut S) -> Self { crate::m::Inc(s.u8()) } }
 
 #[cfg(kani)]
@@ -212,7 +250,7 @@ impl Src for RandSrc {
 /// structural sameness (f32/f64 by bits) used by value oracles
 pub trait Same { fn same(&self, o: &Self) -> bool; }
 macro_rules! same_eq { ($($t:ty),*) => { $(impl Same for $t { fn same(&self, o: &Self) -> bool { self == o } })* } }
-same_eq!(u8, u16, u32, u64, usize, i8, i16, i32, i64, isize, bool, char, (), &'static str, String, crate::m::K, crate::m::W, Option<u8>, [u8; 4], [u8; 2], &'static u8, &'static [u8; 2]);
+same_eq!(u8, u16, u32, u64, usize, i8, i16, i32, i64, isize, bool, char, (), &'static str, String, crate::m::K, crate::m::W, Option<u8>, [u8; 4], [u8; 2], &'static u8, &'static [u8; 2], crate::m::Adv);
 impl Same for f32 { fn same(&self, o: &Self) -> bool { self.to_bits() == o.to_bits() } }
 impl Same for f64 { fn same(&self, o: &Self) -> bool { self.to_bits() == o.to_bits() } }
 impl<const ID: usize> Same for crate::m::Ctr<ID> { fn same(&self, o: &Self) -> bool { self.0 == o.0 } }
@@ -272,6 +310,7 @@ pub uninterp spec fn hv_bool(v: bool) -> int;
 pub uninterp spec fn hv_usize(v: usize) -> int;
 pub uninterp spec fn hv_isize(v: isize) -> int;
 pub uninterp spec fn hv_k(v: crate::m::K) -> int;
+pub uninterp spec fn hv_adv(v: crate::m::Adv) -> int;
 pub assume_specification<H> [<u8 as core::hash::Hash>::hash] (v: &u8, st: &mut H) where H: core::hash::Hasher,
     ensures h_tr(final(st)) == h_push(h_tr(old(st)), hv_u8(*v));
 pub assume_specification<H> [<u16 as core::hash::Hash>::hash] (v: &u16, st: &mut H) where H: core::hash::Hasher,
